@@ -1771,7 +1771,7 @@ class Evaluator:
                     verdicts.append(s.ci in self.prog.mro(x.cls))
                 elif isinstance(x, EnumVal):
                     verdicts.append(s.ci in self.prog.mro(x.cls))
-                elif isinstance(x, (Scalar, Const, Tup, Lst)):
+                elif isinstance(x, (Scalar, Const, Tup, Lst, DictVal)):
                     verdicts.append(False)
                 elif isinstance(x, SymObj) and x.cls is not None:
                     verdicts.append(s.ci in self.prog.mro(x.cls))
